@@ -22,7 +22,7 @@ object and an optional `output_dict` (`session_*`, `backward_after_full_search`,
 `output_dict_entries_sound`); a network that is MODIFIED between the calls (`Model/GraphMut.lean`: edges and nodes added
 after searches, `getEdge(i).weight = w`, new polylines, moved nodes, `getEdge(i).orientation = o` — `mut_path_fresh`,
 `mut_path_optimal`, `mut_path_cut_sound`, `mut_geometry_chained`, `orientation_attribute_not_read`,
-`path_after_orientation_assignment`). Arithmetic: no theorem uses associativity, commutativity or cancellation of `+`
+`path_after_orientation_assignment`, `path_any_history`, `mut_never_diverges`). Arithmetic: no theorem uses associativity, commutativity or cancellation of `+`
 (`WalkAdd` only), so the statements are about the sums as the code rounds them — PROVIDED the double addition satisfies
 `WalkAdd`, which is a fact about IEEE-754 that is not proved here (Lean's `Float` is opaque); the float stream of the harness
 runs the same model instantiated at `Float` bit for bit. "The shortest distance" is then the least rounded sum over walks.
@@ -512,6 +512,29 @@ theorem path_after_orientation_assignment (n : Nat) (ops : List (GraphMut.Op W))
             (shortestDistance (netOf (runOps (Obj.new n) ops).2) (correctInputNode s) (correctInputNode t) cut) := by
   rw [(exec_oriEq _ _ (setOri_oriEq (runOps (Obj.new n) ops).2 i x) (.path s t cut ud)).2]
   exact mut_path_fresh n ops hno s t cut ud hs ht
+
+/-- ANY history, orientation assignments included: after any sequence of calls on a new network, `shortest_path(s, t, cut)`
+answers for a fresh network holding the content that the SAME history WITHOUT its orientation assignments produces — the
+current nodes, edges, weights, polylines and coordinates, each edge with the orientation it was added with. -/
+theorem path_any_history (n : Nat) (ops : List (GraphMut.Op W)) (s t : NodeArg) (cut : Option W) (ud : Bool)
+    (hs : registered (runOps (Obj.new n) ops).2 (correctInputNode s) = true)
+    (ht : registered (runOps (Obj.new n) ops).2 (correctInputNode t) = true) :
+    (exec (runOps (Obj.new n) ops).2 (.path s t cut ud)).2 =
+      .path (shortestPathT (netOf (runOps (Obj.new n) (dropOri ops)).2) (geoOf (runOps (Obj.new n) (dropOri ops)).2)
+               (correctInputNode s) (correctInputNode t) cut)
+            (shortestDistance (netOf (runOps (Obj.new n) (dropOri ops)).2) (correctInputNode s) (correctInputNode t) cut) := by
+  have he := runOps_dropOri ops (Obj.new n) (Obj.new n) (OriEq.refl _)
+  rw [(exec_oriEq _ _ he (.path s t cut ud)).2]
+  rw [registered_oriEq _ _ he] at hs ht
+  exact mut_path_fresh n (dropOri ops) (dropOri_clean ops) s t cut ud hs ht
+
+/-- TERMINATION, any history: whatever the calls were — modifications of any kind, orientation assignments, searches stopped
+at targets or cut-offs, `run_routing_backward` on flags older than the last modification, calls naming unknown nodes — no
+`shortest_path` / `run_routing_backward` of the sequence runs for ever (the `while node.antecedent != ""` loop follows ranked
+antecedents through edges that are still in `EDGES`: nothing is ever removed). -/
+theorem mut_never_diverges (n : Nat) (ops : List (GraphMut.Op W)) (b : BackT) (lab : Option W)
+    (h : GraphMut.Out.path b lab ∈ (runOps (Obj.new n) ops).1) : b ≠ .diverge :=
+  runOps_ends ops (Obj.new n) (Obj.new n) (OriEq.refl _) (inv_new n) (chainOK_new n) _ h
 
 end modified
 
